@@ -2,16 +2,20 @@
 from checks import codec_common as cc
 from vlib.core import hx
 
-MODULES = []
-THEOREMS = []
+MODULES = ["TLVerif.Props.C02"]
+THEOREMS = ["TLVerif.Props.C02." + t for t in [
+    "tl1_canonical_on", "tl1_canonical", "tl1_canonical_dict_partial_on", "tl1_canonical_dict_partial", "tl1_read_prefix",
+    "tl1_canonical_fails_at_dict", "tl1_canonical_fails_at_bit", "rejects_unknown_tag", "rejects_wrong_struct_tag", "rejects_bad_bool",
+    "string_only_canonical"]]
 
 
 def run(c):
     if MODULES:
-        c.lean(MODULES, THEOREMS)
+        c.lean(MODULES, THEOREMS, sources=["TLVerif.Codec.TL1", "TLVerif.Codec.TL1Canon", "TLVerif.Codec.TL1Wf"])
     model, hcodec, schemas = cc.prepare(c)
     rng = c.rng
     for sc in schemas:
+        cc.certificates(c, model, sc)
         lines = cc.x1_lines(sc, rng, 25 if c.thorough else 6, big=c.thorough, mutants=4, valid=True)
         # pure random byte strings as well
         for inst, it in (sc.items if sc.sanity else []):   # without --checkLengthSanity a random count is a legitimate huge allocation
